@@ -30,6 +30,32 @@ KEYS = {
 }
 
 
+# keys of the other unit types: key -> (unit type, kind, candidate values); the base of the unit is docs.MINIMAL[type]
+OTHER = {
+    "volume:User": ("single", ["5", "1000", "x"]), "volume:Group": ("single", ["7", "100"]), "volume:Device": ("single", ["/dev/sda1", "tmpfs"]),
+    "volume:Driver": ("single", ["local", "nfs"]), "volume:Copy": ("bool", ["yes", "no"]), "volume:Label": ("kv", ["l=1", "m=2", "l=3"]),
+    "volume:VolumeName": ("single", ["v1", "v2"]),
+    "network:Subnet": ("list", ["10.0.0.0/24", "10.1.0.0/24"]), "network:Driver": ("single", ["bridge", "macvlan"]), "network:Internal": ("bool", ["yes", "no"]),
+    "network:Label": ("kv", ["l=1", "m=2", "l=3"]), "network:Options": ("kv", ["mtu=1500", "x=y", "mtu=9000"]), "network:DNS": ("list", ["1.1.1.1", "8.8.8.8"]),
+    "pod:PodName": ("single", ["p1", "p2"]), "pod:PublishPort": ("list", ["80:80", "443"]), "pod:Network": ("list", ["host", "bridge"]), "pod:DNS": ("list", ["1.1.1.1", "8.8.8.8"]),
+    "kube:ConfigMap": ("words", ["/a.yml", "/b.yml /c.yml"]), "kube:PublishPort": ("list", ["80:80", "443"]), "kube:LogDriver": ("single", ["journald", "none"]),
+    "kube:ExitCodePropagation": ("single", ["all", "any"]), "kube:KubeDownForce": ("bool", ["yes", "no"]),
+    "image:Arch": ("single", ["amd64", "arm64"]), "image:AllTags": ("bool", ["yes", "no"]), "image:ImageTag": ("single", ["localhost/a", "localhost/b"]),
+    "build:Target": ("single", ["s1", "s2"]), "build:Label": ("kv", ["l=1", "m=2", "l=3"]), "build:Pull": ("single", ["never", "always"]), "build:Secret": ("words", ["id=a", "id=b id=c"]),
+}
+for _k, _v in OTHER.items():
+    KEYS[_k] = _v
+
+
+def unit_of(key):
+    """(file extension, section header, base text, bare key)"""
+    import docs
+    if ":" in key:
+        typ, k = key.split(":", 1)
+        return typ, docs.TYPES[typ][0], docs.MINIMAL[typ], k
+    return "container", "Container", "Image=img\n", key
+
+
 def py_effective(hist):
     out = []
     for v in hist:
@@ -61,11 +87,12 @@ def spread(rng, key, hist):
     for c in cuts + [len(hist)]:
         chunks.append(hist[prev:c]); prev = c
     nmain = rng.randint(1, len(chunks))
-    main = "[Container]\nImage=img\n"
+    typ, sec, base, k = unit_of(key)
+    main = "[%s]\n%s" % (sec, base)
     for ch in chunks[:nmain]:
-        main += "".join("%s=%s\n" % (key, v) for v in ch)
-        main += rng.choice(["", "[Service]\nRestart=no\n[Container]\n", "[Container]\n"])
-    drops = ["[Container]\n" + "".join("%s=%s\n" % (key, v) for v in ch) for ch in chunks[nmain:]]
+        main += "".join("%s=%s\n" % (k, v) for v in ch)
+        main += rng.choice(["", "[Service]\nRestart=no\n[%s]\n" % sec, "[%s]\n" % sec])
+    drops = ["[%s]\n" % sec + "".join("%s=%s\n" % (k, v) for v in ch) for ch in chunks[nmain:]]
     return main, drops
 
 
@@ -76,7 +103,7 @@ def canon_exec(line):
     # canonicalise name=value option runs (HashMap order is unspecified)
     out, i, run_ = [], 0, []
     while i < len(argv):
-        if argv[i] in ("--env", "--label", "--annotation") and i + 1 < len(argv):
+        if argv[i] in ("--env", "--label", "--annotation", "--opt") and i + 1 < len(argv) and "=" in argv[i + 1] and not argv[i + 1].startswith("o="):
             run_.append((argv[i], argv[i + 1])); i += 2
             continue
         if run_:
@@ -84,7 +111,9 @@ def canon_exec(line):
         out.append(argv[i]); i += 1
     if run_:
         out += [x for p in sorted(run_) for x in p]
-    return out
+    # object names derived from the file stem differ between the two files that are compared (h<j> / r<j>)
+    import re
+    return [re.sub(r"^systemd-[hr](\d*)$", "systemd-<stem>", a) for a in out]
 
 
 def lookup_level(ctx):
@@ -151,13 +180,14 @@ def command_level(ctx):
         hist = gen_history(rng, key)
         main, drops = spread(rng, key, hist)
         eff = effective_history(KEYS[key][0], hist)
-        ref = "[Container]\nImage=img\n" + "".join("%s=%s\n" % (key, v) for v in eff)
+        typ, sec, base, k = unit_of(key)
+        ref = "[%s]\n%s" % (sec, base) + "".join("%s=%s\n" % (k, v) for v in eff)
         work.append((key, hist, main, drops, ref))
     # in-process: drop-ins appended as further sections (C15_dropins: merging appends)
     cases = []
     for key, hist, main, drops, ref in work:
-        cases.append(case_line("convert", "0", "/u/h.container", main + "".join(drops)))
-        cases.append(case_line("convert", "0", "/u/h.container", ref))
+        cases.append(case_line("convert", "0", "/u/h.%s" % unit_of(key)[0], main + "".join(drops)))
+        cases.append(case_line("convert", "0", "/u/h.%s" % unit_of(key)[0], ref))
     outs = vlib.run_impl(cases)
     for i, (key, hist, main, drops, ref) in enumerate(work):
         ctx.evaluations += 1
@@ -176,17 +206,19 @@ def command_level(ctx):
     with e2e.Box() as box:
         files = {}
         for j, (key, hist, main, drops, ref) in enumerate(sample):
-            files["units/h%d.container" % j] = main
+            typ = unit_of(key)[0]
+            files["units/h%d.%s" % (j, typ)] = main
             for d, txt in enumerate(drops):
-                files["units/h%d.container.d/%02d-x.conf" % (j, d)] = txt
-            files["units/r%d.container" % j] = ref
+                files["units/h%d.%s.d/%02d-x.conf" % (j, typ, d)] = txt
+            files["units/r%d.%s" % (j, typ)] = ref
         e2e.make_tree(box.root, files)
         rc, out, err = e2e.run_quadlet([box.path("units")], box.path("out"), dry_run=True)
         svcs = e2e.parse_dry_run(out)
         for j, (key, hist, main, drops, ref) in enumerate(sample):
             ctx.evaluations += 1
             ctx.count("e2e_dropins")
-            ta, tb = svcs.get(box.path("out", "h%d.service" % j)), svcs.get(box.path("out", "r%d.service" % j))
+            suf = {"container": "", "kube": "", "volume": "-volume", "network": "-network", "pod": "-pod", "image": "-image", "build": "-build"}[unit_of(key)[0]]
+            ta, tb = svcs.get(box.path("out", "h%d%s.service" % (j, suf))), svcs.get(box.path("out", "r%d%s.service" % (j, suf)))
             def ex(t):
                 if t is None:
                     return None
@@ -200,7 +232,7 @@ def command_level(ctx):
 
 
 def run(ctx):
-    ctx.rule = ("assignment histories (1-6 assignments incl. empty ones) of 20 container keys of all kinds (single, bool, list, word list, name=value), "
+    ctx.rule = ("assignment histories (1-6 assignments incl. empty ones) of 20 container keys and 27 keys of the other six unit types, of all kinds (single, bool, list, word list, name=value), "
                 "spread over the main file, repeated sections and 0-3 drop-ins; look-up level compared with the model and with the rule; command level by the metamorphic "
                 "oracle 'history == its effective history' on the implementation, in-process and end to end with real drop-in files; "
                 "non-trivial = history of >1 assignment (look-ups: containing an empty one); distinct = distinct (key, history)")
